@@ -1214,6 +1214,10 @@ func (v *variantCallPacket) UnmarshalBinary(data []byte) (err error) {
 	}
 	p = p[v.TransactionID.Size():]
 
+	// The command object is optional on the wire. Drop the one preset by the constructor,
+	// so that Size() is the number of bytes consumed and the callers, which advance by
+	// Size(), never slice beyond the payload.
+	v.CommandObject = nil
 	if len(p) > 0 {
 		if v.CommandObject, err = amf0.Discovery(p); err != nil {
 			return oe.WithMessage(err, "discovery command object")
